@@ -415,9 +415,12 @@ pub fn run(tier: &str) -> i32 {
             (vec![vec![0], vec![1], vec![6]], 2, 200_000),
             (vec![vec![0], vec![4]], 2, 200_000),
             (vec![vec![1], vec![2], vec![3]], 2, 200_000),
+            (vec![vec![5], vec![1]], 2, 200_000),
+            (vec![vec![7], vec![7]], 2, 200_000),
+            (vec![vec![7], vec![0], vec![1]], 1, 200_000),
         ]
     } else {
-        vec![(vec![vec![0], vec![1]], 2, 50_000), (vec![vec![0], vec![0]], 1, 50_000), (vec![vec![0, 1], vec![1]], 1, 50_000), (vec![vec![6], vec![1], vec![0]], 1, 50_000)]
+        vec![(vec![vec![0], vec![1]], 2, 50_000), (vec![vec![0], vec![0]], 1, 50_000), (vec![vec![0, 1], vec![1]], 1, 50_000), (vec![vec![6], vec![1], vec![0]], 1, 50_000), (vec![vec![7], vec![1]], 1, 50_000), (vec![vec![5], vec![1]], 1, 50_000)]
     };
     for (programs, bound, cap) in &plans {
         let t0 = std::time::Instant::now();
@@ -431,6 +434,10 @@ pub fn run(tier: &str) -> i32 {
         }
         if st.schedules >= *cap {
             rep.exhaustive = false;
+        }
+        // every explored schedule is a distinct decision sequence (the DFS never repeats a prefix)
+        for k in 0..st.schedules {
+            rep.nontrivial.insert(hash64(&format!("schedule{names:?}#{k}")));
         }
         sched_report.push(json!({"threads": names, "preemption_bound": bound, "schedules": st.schedules, "decisions": st.decisions, "distinct_outcomes": st.outcomes.len(), "capped": st.schedules >= *cap, "seconds": t0.elapsed().as_secs_f64()}));
         for o in st.outcomes {
@@ -532,6 +539,7 @@ pub fn run(tier: &str) -> i32 {
             }
         }
         for (k, set) in &across {
+            rep.nontrivial.insert(hash64(&format!("corpus|{k}")));
             if set.len() > 1 {
                 rep.violation(format!("repeat-across-processes|{k}"), format!("{} different outputs across processes with different hash seeds", set.len()), json!({"corpus_key": k, "observed": set}));
             }
